@@ -30,7 +30,7 @@ import (
 func init() { core.Register("C20", Run) }
 
 func Run(c *core.Ctx) {
-	c.Rule = "parseNonce: every sequence over a 24-symbol CSP token alphabet up to the tier's length, fixed policies, generated regular policies, token soups, mutations, random bytes (distinct non-trivial = distinct header values that contain a script-src directive in any spelling); insertion: distinct documents with a body; proxy: product of documents x content encodings x content types x CSP shapes x request kinds sent through the real proxy between an httptest backend and client (distinct non-trivial = distinct cases in which the proxy rewrote the body or answered 502)"
+	c.Rule = "parseNonce: every sequence over a 24-symbol CSP token alphabet up to the tier's length, fixed policies, generated regular policies, token soups, mutations, random bytes (distinct non-trivial = distinct header values that contain a script-src directive in any spelling); insertion: distinct documents with a body; proxy: product of documents x content encodings x content types x CSP shapes x request kinds sent through the real proxy between an httptest backend and client (distinct non-trivial = distinct cases in which the proxy rewrote the body or answered 502); overlapping responses without timing: explicit modify/read scripts through the handler's ModifyResponse hook and gated real-HTTP overlaps, on one scheduler thread with the collector held off (distinct non-trivial = responses rewritten while another response was modified between their modification and the end of their read)"
 	c.Trusted = append(c.Trusted,
 		"specifications spec/Csp.v (CSP3 serialized-policy parsing, nonce-source grammar) and spec/ProxyDom.v (document.body, append)",
 		"library oracles with contracts checked on every run against the real libraries: compress/gzip and andybalholm/brotli round trips, x/net/html Parse/Render (re-parsing the rendering of the rewritten tree gives that tree) on conforming documents",
@@ -54,7 +54,7 @@ func Run(c *core.Ctx) {
 		}
 	}
 
-	only := os.Getenv("VERIF_C20_FAMILIES") // development aid: comma separated subset of nonce,helper,insert,proxy
+	only := os.Getenv("VERIF_C20_FAMILIES") // development aid: comma separated subset of nonce,helper,insert,proxy,sequence,gated
 	run := func(name string, f func(*core.Ctx)) {
 		if only == "" || strings.Contains(","+only+",", ","+name+",") {
 			t0 := time.Now()
@@ -66,6 +66,8 @@ func Run(c *core.Ctx) {
 	run("helper", helperFamily)
 	run("insert", insertFamily)
 	run("proxy", proxyFamily)
+	run("sequence", sequenceFamily)
+	run("gated", gatedFamily)
 }
 
 func b2s(b []byte) bool { return string(b) == "1" }
